@@ -79,7 +79,7 @@ def run_harness(crate, harness, timeout_s, mem_gb=12, extra_args=()):
     lock = os.path.join(src, "Cargo.lock")
     if not os.path.exists(lock):
         shutil.copy("/repo/Cargo.lock", lock)
-    tdir = os.path.join(WORK, "kani-target", f"{crate}-{harness}")
+    tdir = os.path.join(WORK, "kani-target", crate)     # shared per crate: compiled once (see warm_up), CBMC runs in parallel
     env = dict(os.environ)
     env["CARGO_NET_OFFLINE"] = "true"
     cmd = ["cargo", "kani", "-Z", "stubbing", "--target-dir", tdir, "--harness", harness] + list(extra_args)
@@ -92,7 +92,7 @@ def run_harness(crate, harness, timeout_s, mem_gb=12, extra_args=()):
     except subprocess.TimeoutExpired as e:
         out = (e.stdout or b"").decode("utf8", "replace") if isinstance(e.stdout, bytes) else (e.stdout or "")
         timed_out = True
-        subprocess.run(["pkill", "-f", tdir], check=False)
+        subprocess.run(["pkill", "-f", f"{harness}"], check=False)
     res = parse_kani_output(crate, out).get(harness)
     if res is None:
         res = HarnessResult(crate, harness)
@@ -106,8 +106,37 @@ def run_harness(crate, harness, timeout_s, mem_gb=12, extra_args=()):
     return res
 
 
+def warm_up(crate, timeout_s=3600):
+    """compile the harness crate (and /repo's crates it depends on) once, so that the per-harness runs
+    that follow only do code generation for their harness and the CBMC run"""
+    src = os.path.join(KH, crate)
+    lock = os.path.join(src, "Cargo.lock")
+    if not os.path.exists(lock):
+        shutil.copy("/repo/Cargo.lock", lock)
+    env = dict(os.environ)
+    env["CARGO_NET_OFFLINE"] = "true"
+    tdir = os.path.join(WORK, "kani-target", crate)
+    t0 = time.time()
+    p = subprocess.run(["cargo", "kani", "-Z", "stubbing", "--target-dir", tdir, "--only-codegen"], cwd=src, env=env,
+                       stdout=subprocess.PIPE, stderr=subprocess.STDOUT, text=True, timeout=timeout_s)
+    if p.returncode != 0 and ("error: could not compile" in p.stdout or "error[E" in p.stdout):
+        return False, p.stdout[-3000:]
+    return True, f"{time.time() - t0:.1f}s"
+
+
 def run_many(jobs, timeout_s, mem_gb=12, parallel=6):
     """jobs: list of (crate, harness). Returns list of HarnessResult in order."""
+    for crate in sorted({c for c, _ in jobs}):
+        ok, msg = warm_up(crate)
+        print(f"  [kani] build of harness crate '{crate}' against /repo: {'ok ' + msg if ok else 'FAILED'}", flush=True)
+        if not ok:
+            out = []
+            for c, h in jobs:
+                r = HarnessResult(c, h)
+                r.verdict = "BUILD_ERROR" if c == crate else "UNKNOWN"
+                r.log = msg
+                out.append(r)
+            return out
     with ThreadPoolExecutor(max_workers=parallel) as ex:
         futs = [ex.submit(run_harness, c, h, timeout_s, mem_gb) for c, h in jobs]
         out = []
@@ -164,3 +193,38 @@ def write_evidence(pid, tier, t0, results, functions, bounds, assumptions, extra
     os.makedirs(os.path.join(VERIF, "evidence"), exist_ok=True)
     json.dump(ev, open(os.path.join(VERIF, "evidence", f"{pid}.json"), "w"), indent=1)
     return ev
+
+
+def native_replay(crate, harness, timeout_s=1200):
+    """Replay a failing harness against the real code natively: Kani's concrete playback writes a
+    unit test carrying the counterexample bytes into a scratch copy of the harness crate, and
+    `cargo kani playback` compiles and runs it with the ordinary Rust toolchain semantics (no CBMC).
+    Returns (reproduced, path_to_replay_file, detail)."""
+    scratch = os.path.join(WORK, "playback")
+    dst = os.path.join(scratch, crate)
+    shutil.rmtree(dst, ignore_errors=True)
+    os.makedirs(scratch, exist_ok=True)
+    shutil.copytree(os.path.join(KH, crate), dst)
+    shutil.rmtree(os.path.join(scratch, "shims"), ignore_errors=True)
+    shutil.copytree(os.path.join(KH, "shims"), os.path.join(scratch, "shims"))
+    env = dict(os.environ)
+    env["CARGO_NET_OFFLINE"] = "true"
+    tdir = os.path.join(WORK, "kani-target", f"{crate}-playback")
+    gen = subprocess.run(["cargo", "kani", "-Z", "stubbing", "-Z", "concrete-playback", "--concrete-playback=inplace",
+                          "--target-dir", tdir, "--harness", harness], cwd=dst, env=env, stdout=subprocess.PIPE,
+                         stderr=subprocess.STDOUT, text=True, timeout=timeout_s)
+    src = open(os.path.join(dst, "src", "lib.rs")).read()
+    m = re.search(r"fn (kani_concrete_playback_\w+)", src)
+    rdir = os.path.join(VERIF, "evidence", "replays")
+    os.makedirs(rdir, exist_ok=True)
+    rpath = os.path.join(rdir, f"kani.{crate}.{harness}.txt")
+    if not m:
+        open(rpath, "w").write("no concrete playback test was generated\n" + gen.stdout[-3000:])
+        return False, rpath, "no concrete playback test generated"
+    test = m.group(1)
+    body = src[src.index("#[test]", max(0, src.index(test) - 200)):][:6000]
+    run = subprocess.run(["cargo", "kani", "playback", "-Z", "concrete-playback", "--", test], cwd=dst, env=env,
+                         stdout=subprocess.PIPE, stderr=subprocess.STDOUT, text=True, timeout=timeout_s)
+    failed = "test result: FAILED" in run.stdout or "panicked at" in run.stdout
+    open(rpath, "w").write(f"# concrete playback of {crate}::{harness} against the real code (native run)\n{body}\n\n# native run output\n{run.stdout[-4000:]}")
+    return failed, rpath, ("native run panics: " + "; ".join(re.findall(r"panicked at [^\n]*\n[^\n]*", run.stdout)[:2])) if failed else "native run of the counterexample does not fail"
